@@ -9,7 +9,7 @@
 import collections
 import re
 
-from .. import common, outcheck, outfamily, pipeline
+from .. import common, findings, outcheck, outfamily, pipeline
 from .. import ilfront as IL
 
 
@@ -17,10 +17,11 @@ def main(tier):
     run = common.Run("C11", "translation_validation", tier)
     layouts = ("rs", "ec")
     S = pipeline.Session(layouts=layouts)
-    outs = outfamily.collect(run, S, tier, "wf", layouts=layouts, corpus_n=110)
+    outs = outfamily.collect(run, S, tier, "wf", layouts=layouts, corpus_n=70, gen_scale=0.45 if tier == "quick" else 1.0)
     res = outfamily.run_checks(S, outs.items)
     bad = 0
     stmts = 0
+    kf_names = set()
     samples = []
     texts = set()
     for it, r in zip(outs.items, res):
@@ -30,7 +31,10 @@ def main(tier):
         texts.add(it["rzil"])
         stmts += r["decls"] + 1
         probs = ([f"syntax: {r['syntax']}"] if r["syntax"] else []) + r["wellformed"]
-        if probs:
+        if probs and not r["syntax"] and findings.output_signature(it["src"], probs) and run.known("dead_arm_operand", {"source": it["src"], "problems": probs[:2]}):
+            bad += 1
+            kf_names.add(it["name"])
+        elif probs:
             bad += 1
             for pr in probs[:3]:
                 kind = re.sub(r"\b[\w]+_\d+\b|\b[A-Z][a-z]{1,2}(_new)?\b", "N", pr)[:50]
@@ -59,6 +63,8 @@ def main(tier):
         diag = outcheck.clang_syntax_check(bodies[k:k + B], decls, subdefs if k == 0 else None)
         clang_batches += 1
         for label, msgs in diag.items():
+            if label in kf_names:
+                continue  # already attributed to the listed finding by the structural checker
             clang_bad += 1
             it = next((i for i in outs.items if i["name"] == label), {"vkey": label, "src": "", "rzil": ""})
             run.violation(f"clang rejects the emitted body ({label}): {msgs[0]}",
